@@ -642,7 +642,7 @@ def run_C07(rng, tier):
     viols = O.c07(cases)
     # f64: the same bounds up to a few ulps of the bound
     fcases = []
-    for c in cases[:len(cases) // 2]:
+    for c in cases[::2] + [c_ for c_ in cases[1::2] if c_.desc[0] in ("Eft", "Pfe", "Tanh", "Drawdown")]:
         fcases.append(Case(c.desc, c.ops, dict(c.meta, model=False, mode="f64")))
     for n in (2, 3, 5, 13):
         for v in ("Rsi", "MyRsi", "Hln", "Cti", "Net", "Vsct", "Welford"):
